@@ -37,13 +37,19 @@ def plan(tier, seed):
     if not q:
         for nd in range(2, 6):
             specs.append({"name": "asan-frozen-%dD" % nd, "kind": "frozen", "nd": nd, "b": 77, "n": {2: 10, 3: 6, 4: 4, 5: 2}[nd], "build": "asan", "timeout": 1800})
+    # the repository's own tests as workload, with the ambient monitors of vf.ambient installed
+    if tier != "quick":
+        specs.append({"name": "ambient-tests", "kind": "ambient-tests", "files": ['test_Freezing.py', 'test_1D_Integration.py', 'test_4D.py'], "timeout": 2400, "cpus": 4})
     return specs
 
 
 def required(tier):
-    return {"sweep-conserves": 500, "corner-outflow": 200, "inject-only-unit-entries": 200, "inject-mass": 200,
+    r = {"sweep-conserves": 500, "corner-outflow": 200, "inject-only-unit-entries": 200, "inject-mass": 200,
             "no-unobserved-change": 200, "mass-budget": 40, "frozen-marginal": 30, "isolated-subset": 20,
             "no-mutation-into-frozen-or-nomut": 20, "frozen-migration-rejected": 50, "tap-attached": 1}
+    if tier != "quick":
+        r.update({'ambient-sweep-conserves': 100, 'ambient-inject-mass': 100, 'ambient-inject-only-unit-entries': 100})
+    return r
 
 
 class RunLog:
@@ -92,7 +98,10 @@ class RunLog:
                     m_exp = ev["dt"] * ev["theta0"] / 2 / grids[k][1]
                     got = diff[idx] * w
                     exp_mass += m_exp
-                    rec.close("inject-mass", abs(got - m_exp) / max(abs(m_exp), 1e-300), 1e-12, site=ev["name"], tags=tags,
+                    # the increment is read back as after - before: when the entry is large and the step tiny (a last, shortened
+                    # step) the subtraction itself carries eps * |entry| of round-off
+                    roundoff = 8 * 2.2e-16 * abs(float(ev["after"][idx])) * w / max(abs(m_exp), 1e-300)
+                    rec.close("inject-mass", abs(got - m_exp) / max(abs(m_exp), 1e-300), 1e-12 + roundoff, site=ev["name"], tags=tags,
                               observed=float(got), expected=float(m_exp))
             rec.check("inject-only-unit-entries", not np.any(diff[~allowed] != 0), site=ev["name"], tags=tags,
                       observed={"touched": np.argwhere((diff != 0) & ~allowed)[:5].tolist(), "frozen": frozen, "nomut": nomut})
@@ -169,6 +178,9 @@ def interior(a):
 
 
 def run(spec, rec):
+    if spec.get("kind") == "ambient-tests":
+        from vf import ambient
+        return ambient.run_tests_batch(spec, rec, 'C04')
     import dadi
     from dadi import Integration, Numerics, PhiManip
     seed = spec["seed"]
